@@ -81,8 +81,8 @@ func init() {
 	}
 	props["C08"] = &propCfg{
 		World: "fed08", QuickRuns: 48000, ThorRuns: 800000, QuickSecs: 200, ThorSecs: 1800, Level: "exploration", MinNontriv: 50,
-		Rule:        "one case = one generated (federation, operation, organiser options waves/DAG x multi-fetch) executed under 4-8 different completion orders (tape strategy, reverse arrival order, uniform, arrival order) with subgraph request de-duplication off; data must equal the reference and be identical across schedules, errors and the multiset of subgraph requests (subgraph, body) identical across schedules, every request valid. A request issued before the data it reads was merged shows up as a different or invalid request. Non-trivial = overlapping subgraph requests occurred. Distinct = distinct hash of the context-switch sequence.",
-		Assumptions: append([]string{"dependency order is observed semantically at the network (a fetch issued before its inputs were merged carries missing/short representations), not by reading plan internals"}, fedAssume...), Components: fedComponents,
+		Rule:        "one case = one generated (federation, operation, organiser options waves/DAG x multi-fetch) executed under 4-8 different completion orders (tape strategy, reverse arrival order, uniform, arrival order) with subgraph request de-duplication off; data must equal the reference and be identical across schedules, errors and the multiset of subgraph requests (subgraph, body) identical across schedules, every request valid. A request issued before the data it reads was merged shows up as a different or invalid request. Afterwards, when the plan (reported in the response extensions) has a fetch whose subgraph serves no other fetch and that has dependents, half of the cases run once more with a fault: the first __typename of one of its _entities answers becomes a number, which the loader cannot merge (ErrMergeResult fails the request); no request attributed to a fetch that depends on the failed one by the plan's edges may be issued after that answer was handed over. Non-trivial = overlapping subgraph requests occurred. Distinct = distinct hash of the context-switch sequence.",
+		Assumptions: append([]string{"dependency order is observed semantically at the network (a fetch issued before its inputs were merged carries missing/short representations), not by reading plan internals", "the hard-failure clause reads the plan's dependency edges from the response extensions; the reported plan has no query text, so requests are attributed to fetches by subgraph and only when that subgraph has one fetch; plans with cyclic edges or the shared-response-key shape (known findings) are not judged by it"}, fedAssume...), Components: fedComponents,
 	}
 	props["C07"] = &propCfg{
 		World: "fed07", QuickRuns: 60000, ThorRuns: 1000000, QuickSecs: 200, ThorSecs: 1800, Level: "exploration", MinNontriv: 50,
